@@ -1152,7 +1152,7 @@ func (env *SpecEnv) call(x *ast.CallExpr) Val {
 		if len(sf.Params) != len(x.Args) {
 			specErr("spec %s: wrong number of arguments", name)
 		}
-		inner := &SpecEnv{f: f, vars: map[string]Val{}, st: env.st, old: env.old, result: env.result, pkg: sf.Pkg, depth: env.depth + 1}
+		inner := &SpecEnv{f: f, vars: map[string]Val{}, st: env.st, old: env.old, result: env.result, pkg: sf.Pkg, depth: env.depth + 1, self: env.self}
 		for i, p := range sf.Params {
 			inner.vars[p] = env.eval(x.Args[i])
 		}
